@@ -387,6 +387,16 @@ func (h *HttpServer) handleStreamExchange(w http.ResponseWriter, r *http.Request
 		return
 	}
 
+	// A unary method has no stream to continue. State tokens are not bound
+	// to the method that minted them, so without this check a valid token
+	// from any exchange stream reaches handleExchangeCall under a unary
+	// route with a nil output schema and panics outside every recover.
+	if info.Type == MethodUnary {
+		h.writeHttpError(w, http.StatusBadRequest,
+			&RpcError{Type: "TypeError", Message: fmt.Sprintf("Method '%s' is unary; use base endpoint", method)}, nil)
+		return
+	}
+
 	body, err := h.readHTTPBody(r)
 	if err != nil {
 		h.writeBodyReadError(w, err, nil)
